@@ -12,6 +12,78 @@ REQUIRED = ["DaeVerif.C08.Props." + n for n in [
 ]]
 
 
+DNSCFG_FALLBACK = '''// FALLBACK copy of the dns{}-recording statements of NewControlPlane (the translator could not extract them).
+package control
+
+import (
+	"reflect"
+	"unsafe"
+
+	"github.com/daeuniverse/dae/component/dns"
+	"github.com/daeuniverse/dae/config"
+)
+
+const c08ProductionRecordDNSMode = "FALLBACK copy"
+
+func c08SetField(plane *ControlPlane, name string, val any) bool {
+	f := reflect.ValueOf(plane).Elem().FieldByName(name)
+	if !f.IsValid() {
+		return false
+	}
+	reflect.NewAt(f.Type(), unsafe.Pointer(f.UnsafeAddr())).Elem().Set(reflect.ValueOf(val))
+	return true
+}
+
+func c08ProductionRecordDNS(plane *ControlPlane, dnsConfig *config.Dns, dnsUpstream *dns.Dns) (*DnsControllerOption, error) {
+	fixedDomainTtl, err := ParseFixedDomainTtl(dnsConfig.FixedDomainTtl)
+	if err != nil {
+		return nil, err
+	}
+	plane.dnsRouting = dnsUpstream
+	plane.dnsFixedDomainTtl = fixedDomainTtl
+	has := c08SetField(plane, "dnsOptimisticCache", dnsConfig.OptimisticCache)
+	c08SetField(plane, "dnsOptimisticCacheTtl", dnsConfig.OptimisticCacheTtl)
+	c08SetField(plane, "dnsMaxCacheSize", dnsConfig.MaxCacheSize)
+	c08SetField(plane, "dnsIpVersionPrefer", dnsConfig.IpVersionPrefer)
+	opt := plane.dnsControllerOption()
+	if !has {
+		opt.OptimisticCache, opt.OptimisticCacheTtl, opt.MaxCacheSize = dnsConfig.OptimisticCache, dnsConfig.OptimisticCacheTtl, dnsConfig.MaxCacheSize
+	}
+	return opt, nil
+}
+'''
+
+
+def dnscfg_overlay(ctx, fallback=False):
+    """The statements with which NewControlPlane records dns{} and builds the DnsControllerOption,
+    regenerated from /repo's current control_plane.go (translators/c08dnscfg)."""
+    from verifkit import sh, go_env, CACHE, VERIF, REPO
+    gen = os.path.join(CACHE, "gen")
+    os.makedirs(gen, exist_ok=True)
+    outp = os.path.join(gen, "c08dnscfg.go")
+    if os.path.exists(outp):
+        os.unlink(outp)
+    mode = "regenerated from control_plane.go"
+    if not fallback:
+        rc, out, dt = sh(["go", "run", "main.go", os.path.join(REPO, "control"), outp],
+                         cwd=os.path.join(VERIF, "translators", "c08dnscfg"), env=go_env(), timeout=600)
+        ctx.log.write(f"$ c08dnscfg [{dt:.1f}s rc={rc}] {out}\n")
+        if rc != 0:
+            fallback, mode = True, "FALLBACK copy (not extractable: %s)" % out.strip()[-200:]
+    else:
+        mode = "FALLBACK copy (the regenerated statements did not compile in the harness)"
+    if fallback:
+        open(outp, "w").write(DNSCFG_FALLBACK)
+    # the question -> key function of the request path: questionCacheKey where the tree has it
+    shim = os.path.join(gen, "c08shim.go")
+    has = "func (c *DnsController) questionCacheKey(" in open(os.path.join(REPO, "control", "dns_control.go")).read()
+    call = "c.questionCacheKey(q)" if has else "c.cacheKey(q.Name, q.Qtype)"
+    open(shim, "w").write("package control\n\nimport dnsmessage \"github.com/miekg/dns\"\n\n"
+                          "func c08QuestionKey(c *DnsController, q dnsmessage.Question) string { return %s }\n" % call)
+    return {os.path.join(REPO, "control", "zz_verif_c08dnscfg.go"): outp,
+            os.path.join(REPO, "control", "zz_verif_c08shim.go"): shim}, mode
+
+
 def kvs(line):
     return dict(t.split("=", 1) for t in line.split()[1:] if "=" in t)
 
@@ -36,9 +108,14 @@ def run(ctx):
     ctx.prove(["DaeVerif.C08.Props"], ["DaeVerif.C08.Props"], ["DaeVerif/C08/*.lean"], extra_targets=["c08drv"])
     ctx.required_theorems(REQUIRED)
 
-    binp = ctx.go_test_build("control", ["control/c08_test.go"], "c08")
+    ov, mode = dnscfg_overlay(ctx)
+    binp = ctx.go_test_build("control", ["control/c08_test.go"], "c08", extra_overlay=ov)
+    if not binp:
+        ov, mode = dnscfg_overlay(ctx, fallback=True)
+        binp = ctx.go_test_build("control", ["control/c08_test.go"], "c08", extra_overlay=ov)
     if not binp:
         return 2
+    ctx.cov["dns_section_recording_statements"] = mode
     rc, out = ctx.run_harness(binp, "TestVerifC08")
     ops, impl, model = (os.path.join(ctx.out, "c08." + e) for e in ("ops", "impl", "model"))
     if rc != 0 or not os.path.exists(ops):
@@ -133,6 +210,29 @@ def run(ctx):
     ctx.cov["lookup_hits"] = n_hit
     ctx.assumptions = ["histories are generated (seeded); 2-6 colliding (name,type,route) slots per history, clock aimed at deadline/"
                        "stale-window/repack/slack boundaries +-1ns"]
+    # Generator floors (quick-tier sizes; thorough is larger): an input class the theorems are tied on
+    # that is generated less often than this means the check did not look — exit 2, not OK.
+    floors_in = {"op.ask": 1500, "op.jan_real_ticker": 1500, "op.cpreload_reuse": 15, "op.cpreload_new_controller": 12,
+                 "op.reconf_with_real_janitor": 8, "ask.class_CH": 80, "ask.simultaneous_identical_requests": 100,
+                 "ask.stale_hit_started_refresh": 60, "lookup.when.at_deadline": 40, "lookup.when.at_window_end": 20,
+                 "lookup.when.fresh_last_ns": 25, "lookup.when.expired_first_ns": 40, "lookup.when.window_end_plus_1ns": 12,
+                 "insert.access_callback_fails": 40, "op.self_restore": 50, "race.latch_releases_hammered": 10000,
+                 "insert.reply_class_not_IN": 40, "key.class_not_IN": 100, "insert.not_cacheable_reply": 200,
+                 "janitor.evicted_by_real_ticker": 200, "history.ignore_fixed_ttl_heavy": 12}
+    floors_br = {"fresh.packed_exact": 80, "fresh.packed_within_slack": 500, "fresh.packed_slack_exactly_15": 50,
+                 "fresh.repacked": 300, "fresh.fallback_unpackable": 120, "fresh.fallback_packed_path_expired": 12,
+                 "stale.first_triggers_refresh": 250, "stale.refresh_already_in_flight": 120,
+                 "expired.evict_beyond_window": 150, "expired.evict_not_optimistic": 300, "expired.evict_unpackable": 40,
+                 "expired.evict_origdeadline_only": 3, "jan.time_evicted": 500, "jan.lru_evicted": 150}
+    if not any(os.environ.get(v) for v in ("C08_HIST", "C08_ASK", "C08_RACE")):
+        low = [f"{k}={stats['counters'].get(k, 0)}<{v}" for k, v in floors_in.items() if stats["counters"].get(k, 0) < v]
+        br = ctx.cov.get("model_branch_coverage", {})
+        low += [f"{k}={br.get(k, 0)}<{v}" for k, v in floors_br.items() if br.get(k, 0) < v]
+        ctx.cov["generator_floors"] = {"inputs": floors_in, "model_branches": floors_br, "below": low}
+        if low and not ctx.violations and not ctx.proof_failures:
+            ctx.say("GENERATOR-BELOW-FLOOR", ", ".join(low))
+            ctx.finish(rule="generator floors not met", evaluations=len(op_lines), distinct=len(distinct))
+            return 2
     return ctx.finish(rule="one evaluation = one operation line (key/ins/insn/look/clook/jan/reload/reconf/rdone/rm/rmfam/keys/heap/sift) "
                            "executed by the real DnsController under virtual time and by the Lean model; distinct_nontrivial counts "
                            "distinct (operation without clock value, implementation answer) pairs",
